@@ -12,7 +12,7 @@ import cfg
 from rules import util, ciphers, arith
 from rules.arith import S, I, wadd, xor
 from rules.util import P, strip, canon, show_b
-from symex import show
+from symex import show, walk
 
 EXPLANATION = __doc__
 TRUSTED = ["rustc / extractor", "textbook RC4 as written in spec (KSA/PRGA definitions)", "HMAC-SHA1 implementation", "stream induction lemma"]
@@ -56,6 +56,32 @@ def is_keystream_iter(ctx, t, owner):
 
 def applicable(feats):
     return "wrath-header" in feats
+
+
+def _whole_view(i):
+    """`&mut data[..]`: the full-range view of a slice is the slice"""
+    return i["name"].split("::")[-1] in ("index", "index_mut") and len(i.get("locargs", ())) == 2 and i["locargs"][1][0] == "agg" and i["locargs"][1][2] == "std::ops::RangeFull"
+
+
+def _scratch_len(se, call, locargs):
+    """the length of the buffer handed to apply_keystream at `call`, when it is a constant: a
+    `[x; N]` array, a `vec![x; N]`, either of them after earlier applications"""
+    pad = se.call_old.get((call[3][:2], 1))
+    pad = strip(pad) if pad is not None else None
+    for _ in range(70):
+        if pad is None:
+            break
+        if pad[0] == "after" and util.is_call(pad[1], "rc4::Rc4::apply_keystream"):
+            pad = strip(pad[3])
+            continue
+        if pad[0] == "repeat" and isinstance(pad[2], int):
+            return pad[2]
+        if util.is_call(pad, "std::vec::from_elem") and util.numnorm(pad[2][1])[0] == "int":
+            return util.numnorm(pad[2][1])[1]
+        break
+    if len(locargs) > 1 and locargs[1] and locargs[1][0] == "ref":
+        return se.loc_array_len(locargs[1][1])
+    return None
 
 
 def check(ctx, rep):
@@ -118,7 +144,29 @@ def check(ctx, rep):
         if r[0] == "agg" and r[2] == IC and len(r[4]) == 1:
             v = r[4][0]
             # after<apply_keystream(rc4, pad)>(Rc4::new(hmac bytes))
-            if v[0] == "after" and util.is_call(v[1], "rc4::Rc4::apply_keystream") and v[2] == 0 and util.is_call(v[3], "rc4::Rc4::new"):
+            # several straight-line applications in a row discard the sum of their buffers' lengths
+            # (the keystream does not depend on the bytes it is applied to; PRGA rule)
+            chain = []
+            w_ = v
+            while w_[0] == "after" and util.is_call(w_[1], "rc4::Rc4::apply_keystream") and w_[2] == 0 and len(chain) < 64:
+                chain.append(w_[1])
+                w_ = strip(w_[3])
+            if len(chain) > 1 and util.is_call(w_, "rc4::Rc4::new") and not cfg.back_edges(se.body):
+                key = util.bexpr(ctx, se, w_[2][0])
+                want = ("HMAC", P(2), (P(1),)) if dir_enum is None else ("HMAC", ("const", dir_keys.get(0, b"")), (P(1),))
+                if dir_enum is not None and len(dir_keys) != len(fb.adts[dir_enum]["variants"]):
+                    want = ("?",)
+                rep.check(key == util.cb(want), "derivation", fn, "hmac-key", "RC4 key = all bytes of HMAC-SHA1(key = direction constant; session key)", "RC4 key is %s, expected HMAC-SHA1(key=arg2; arg1)" % show_b(key)[:300], se.body.loc())
+                lens_ = []
+                for c_ in chain:
+                    la_ = se.term_info.get(c_[3][1], {}).get("locargs", ((), ()))
+                    lens_.append(_scratch_len(se, c_, la_))
+                tot = sum(lens_) if all(isinstance(x, int) for x in lens_) else None
+                rep.check(tot == DROP, "derivation", fn, "drop-1024", "%d keystream applications over scratch buffers of %s bytes: %d bytes discarded" % (len(chain), lens_, DROP), "discarded prefix is %s bytes in %d applications, expected %d in all" % (lens_, len(chain), DROP), se.body.loc())
+                n = sum(1 for i in se.term_info.values() if i.get("k") == "call" and i["name"] == "rc4::Rc4::apply_keystream")
+                rep.check(n == len(chain), "derivation", fn, "single-drop", "the only keystream applications in the constructor are the discarded ones", "%d keystream applications in the constructor, %d of them in the discard chain" % (n, len(chain)), se.body.loc())
+                good = True
+            elif v[0] == "after" and util.is_call(v[1], "rc4::Rc4::apply_keystream") and v[2] == 0 and util.is_call(v[3], "rc4::Rc4::new"):
                 key = util.bexpr(ctx, se, v[3][2][0])
                 want = ("HMAC", P(2), (P(1),)) if dir_enum is None else ("HMAC", ("const", dir_keys.get(0, b"")), (P(1),))
                 if dir_enum is not None and len(dir_keys) != len(fb.adts[dir_enum]["variants"]):
@@ -128,6 +176,9 @@ def check(ctx, rep):
                 pad = se.call_old.get((site, 1))
                 pad = strip(pad) if pad else None
                 good_pad = pad is not None and pad[0] == "repeat" and pad[1][:2] == ("int", 0) and pad[2] == DROP
+                if not good_pad and pad is not None:
+                    # any scratch buffer of 1024 bytes will do (`vec![0; 1024]`): only its length matters
+                    good_pad = _scratch_len(se, v[1], se.term_info.get(v[1][3][1], {}).get("locargs", ((), ()))) == DROP
                 rep.check(good_pad, "derivation", fn, "drop-1024", "keystream applied once to a local [0; 1024] and discarded", "discarded prefix is %s, expected a zero array of length %d" % (show(pad, maxdepth=2) if pad else "?", DROP), se.body.loc())
                 # only one keystream application in new
                 n = sum(1 for i in se.term_info.values() if i.get("k") == "call" and i["name"] == "rc4::Rc4::apply_keystream")
@@ -225,7 +276,7 @@ def check(ctx, rep):
     # apply = keystream
     ase = ctx.wrap.run(IC + "::apply")
     if ase is not None:
-        calls = [i for i in ase.term_info.values() if i.get("k") == "call"]
+        calls = [i for i in ase.term_info.values() if i.get("k") == "call" and not _whole_view(i)]
         good = len(calls) == 1 and calls[0]["name"] == "rc4::Rc4::apply_keystream" and strip(calls[0]["locargs"][1]) == ("param", 2)
         rep.check(good, "keystream", IC + "::apply", "delegates", "apply(data) = inner.apply_keystream(data)", "InnerCrypto::apply is not a plain keystream application")
     # ---------------- direction table
@@ -260,7 +311,7 @@ def check(ctx, rep):
         meth = "encrypt" if "Encrypter" in half else "decrypt"
         mse = ctx.wrap.run(half + "::" + meth)
         if mse is not None:
-            calls = [i for i in mse.term_info.values() if i.get("k") == "call" and not (i.get("inlined") and i["name"].split("::")[-1] in ("deref", "deref_mut"))]
+            calls = [i for i in mse.term_info.values() if i.get("k") == "call" and not (i.get("inlined") and i["name"].split("::")[-1] in ("deref", "deref_mut")) and not _whole_view(i)]
             good = len(calls) == 1 and calls[0]["name"] == IC + "::apply" and strip(calls[0]["locargs"][1]) == ("param", 2)
             rep.check(good, "keystream", half + "::" + meth, "delegates", "raw operation = InnerCrypto::apply(data)", "raw operation of %s is not a plain keystream application" % half)
     rep.check(SERVER_ENCRYPT != SERVER_DECRYPT and len(set(v for v in seen.values() if v)) == 2, "direction", "wrath_header", "two-distinct-constants", "the two directions use different constants", "directions share a constant")
@@ -354,7 +405,9 @@ def check(ctx, rep):
         loops = util.for_loops(ctx, se)
         good = False
         why = "no single whole-slice loop"
-        if len(loops) == 1:
+        if len(loops) == 1 and not loops[0]["only_exit"]:
+            why = "the loop can be left before the last byte (break / return inside)"
+        elif len(loops) == 1:
             lp = loops[0]
             ini = strip(lp["init"] or ("?",))
             if util.is_call(ini, "core::slice::<impl [T]>::iter_mut"):
@@ -397,8 +450,53 @@ def check(ctx, rep):
                     why = "byte ^= prga(), one step per byte, in order" if good else "xor operands %s" % [show(o, maxdepth=2) for o in ops]
                 else:
                     why = "byte is written with %s" % show(val, maxdepth=3)
+            elif ini[0] == "agg" and ini[2] == "std::ops::Range" and ini[4][0][:2] == ("int", 0) and util.numnorm(ini[4][1]) == ("len", ("param", 2)) and "Range" in (lp["resolved"] or ""):
+                # for n in 0..stream.len() { stream[n] ^= self.prga() }: every position once, in order
+                n_t = strip(lp["elem"])
+                P2 = strip(("deref", ("param", 2)))
+                ws = [(k, v) for k, v in se.assigns.items() if v[0][0] == "index" and strip(v[0][2]) == n_t and strip(v[0][1]) == P2]
+                others = [(k, v) for k, v in se.assigns.items() if v[0][0] in ("index", "cindex", "deref") and (k, v) not in ws and any(x == ("param", 2) for x in walk(v[0]))]
+                if len(ws) == 1 and not others:
+                    val = strip(ws[0][1][1])
+                    idom = cfg.dominators(body)
+                    uncond = all(cfg.dominates(idom, ws[0][0][0], t) for t, h in cfg.back_edges(body))
+                    n_prga = sum(1 for i in se.term_info.values() if i.get("k") == "call" and i["name"] == "rc4::Rc4::pseudo_random_generation")
+                    ops = [val[2], val[3]] if val[0] == "binop" and val[1] == "BitXor" else []
+                    pr = [o for o in ops if util.is_call(o, "rc4::Rc4::pseudo_random_generation")]
+                    # the other operand: the byte at the same position as the loop found it
+                    inn = [o for o in ops if strip(o)[0] == "index" and strip(strip(o)[2]) == n_t and (strip(strip(o)[1]) == P2 or (strip(strip(o)[1])[0] == "phi" and strip(strip(o)[1])[3] == ("deref", ("param", 2))))]
+                    loop = set()
+                    for e in cfg.back_edges(body):
+                        loop |= cfg.natural_loop(body, e)
+                    exits = {(b_, s_) for b_ in loop for s_ in body.succs(b_) if s_ not in loop and body.blocks[s_]["term"]["k"] != "unreachable"}
+                    good = len(pr) == 1 and len(inn) == 1 and uncond and n_prga == 1 and exits == {(lp["switch_bb"], lp["exit_bb"])}
+                    why = "stream[n] ^= prga() for n = 0..len, one step per byte, in order" if good else "index loop: byte is written with %s" % show(val, maxdepth=3)
+                else:
+                    why = "index loop with %d stores per byte" % len(ws)
             else:
                 why = "traversal %s, stores per byte %d" % (lp["resolved"], len(writes))
+        fes = [i for i in se.term_info.values() if i.get("k") == "call" and i["name"].endswith("::for_each")] if not loops else []
+        if len(fes) == 1 and fes[0]["name"].startswith("<std::slice::IterMut<") and not cfg.back_edges(body):
+            # stream.iter_mut().for_each(|s| *s ^= self.prga()): the closure runs once per byte, in order
+            f = fes[0]
+            it = strip(f["args"][0])
+            over = util.is_call(it, "core::slice::<impl [T]>::iter_mut") and se.call_old.get((it[3][:2], 0)) == ("deref", ("param", 2))
+            cl = f["locargs"][1] if len(f.get("locargs", ())) > 1 else ("?",)
+            other_calls = [i for i in se.term_info.values() if i.get("k") == "call" and i is not f and i["name"] != "core::slice::<impl [T]>::iter_mut"]
+            if over and cl[0] == "agg" and cl[1] == "closure" and len(cl[4]) == 1 and cl[4][0] == ("ref", ("local", 1), True) and not other_calls:
+                cse = ctx.flat.run(cl[2])
+                if cse is not None and not cfg.back_edges(cse.body) and len(cse.final_states) == 1:
+                    fin = next(iter(cse.final_states.values()))
+                    ccalls = [i for i in cse.term_info.values() if i.get("k") == "call"]
+                    selfp = ("deref", ("deref", ("deref", ("field", ("deref", ("param", 1)), 0))))
+                    one = len(ccalls) == 1 and ccalls[0]["name"] == "rc4::Rc4::pseudo_random_generation" and ccalls[0]["locargs"][0][0] == "ref" and strip(ccalls[0]["locargs"][0][1]) == strip(selfp)
+                    val = strip(fin.get(("deref", ("param", 2)), ("?",)))
+                    ops = [val[2], val[3]] if val[0] == "binop" and val[1] == "BitXor" else []
+                    pr = [o for o in ops if util.is_call(o, "rc4::Rc4::pseudo_random_generation")]
+                    inn = [o for o in ops if strip(o) == strip(("deref", ("param", 2)))]
+                    stores = [k for k in fin if k[0] == "deref" and strip(k) not in (strip(("deref", ("param", 2))), strip(selfp))]
+                    good = one and len(pr) == 1 and len(inn) == 1 and not stores
+                    why = "for_each over the whole slice: byte ^= prga(), one step per byte, in order" if good else "for_each closure writes the byte with %s" % show(val, maxdepth=3)
         rep.check(good, "keystream", fn, "xor-one-step-per-byte", why, "keystream application is not `byte ^= one PRGA step` for every byte in order: " + why, body.loc())
     # ---------------- KSA
     ksa(ctx, rep)
@@ -472,6 +570,9 @@ def ksa(ctx, rep):
     drivers = [c for c in calls if c["name"] == "std::iter::Iterator::for_each" or c["name"].endswith("as std::iter::Iterator>::fold") or c["name"] == "std::iter::Iterator::fold"]
     if len(drivers) == 0:
         return ksa_loops(ctx, rep, se)
+    if util.for_loops(ctx, se) and not any(util.is_call(strip(c["args"][0]), "std::iter::Iterator::zip") for c in drivers):
+        # the mixing pass is a loop (the identity pass may still be a for_each closure)
+        return ksa_loops(ctx, rep, se)
     form = ksa_form(ctx, se)
     if form is None:
         rep.violation("ksa", fn, "shape", "the KSA neither works on self.state nor returns a local [u8; 256] table", body.loc())
@@ -514,6 +615,11 @@ def ksa(ctx, rep):
         how = "first pass: S[n] = n over iter_mut().enumerate()"
         # the identity pass must come first
         init_ok = init_ok and bool(mix) and init[0]["site"][1] < mix[0]["site"][1] and cfg.must_pass_block(body, init[0]["site"][1], mix[0]["site"][1])
+    elif len(init) == 0 and _loop_identity_init(ctx, se, table_loc) is not None:
+        # the identity pass as a `for` loop, the mixing pass as a for_each closure
+        h_ = _loop_identity_init(ctx, se, table_loc)
+        init_ok = bool(mix) and h_ < mix[0]["site"][1] and cfg.must_pass_block(body, h_, mix[0]["site"][1])
+        how = "first pass: S[n] = n for n = 0..256 (loop)"
     elif len(init) == 0:
         ni = new_initial_state(ctx)
         if ni is not None and ni[0] is not None and in_self:
@@ -657,6 +763,50 @@ def ksa_form(ctx, se):
     return None
 
 
+def _loop_identity_init(ctx, se, table_loc):
+    """a `for` loop that writes S[n] = n for n = 0..256 (the counter from enumerate(), a zipped
+    0..=255 or the range itself): its head block, or None"""
+    from rules import algos, loopsem
+
+    def lens(base):
+        if base == table_loc or strip(base) == strip(table_loc):
+            return lambda n: 256
+        return None
+
+    sem = loopsem.Sem(ctx, se, lens)
+    for head, (elem, src, lp) in algos.for_info(ctx, se).items():
+        r = sem.statements(lp)
+        if r is not None and len(r[0]) == 1:
+            d, A, v = r[0][0]
+            if d == table_loc and A == (1, 0) and v[0] == "cnt" and v[1] == (1, 0) and r[1](0) >= 256:
+                return head
+    return None
+
+
+def _closure_identity_init(ctx, se, call, table_loc):
+    """`table.iter_mut().enumerate().for_each(|(n, x)| *x = n as u8)` at the for_each call `call`"""
+    if call["name"] != "std::iter::Iterator::for_each":
+        return False
+    it1 = strip(call["args"][0])
+    ok1 = util.is_call(it1, "std::iter::Iterator::enumerate") and util.is_call(it1[2][0], "core::slice::<impl [T]>::iter_mut")
+    if ok1:
+        im = se.term_info.get(it1[2][0][3][1], {})
+        la = (im.get("locargs") or (("?",),))[0]
+        ok1 = la[0] == "ref" and la[1] == table_loc
+    cl0 = call["locargs"][1]
+    c0 = ctx.flat.run(cl0[2]) if cl0[0] == "agg" and cl0[1] == "closure" else None
+    if c0 is None or not ok1:
+        return False
+    fin = list(c0.final_states.values())
+    if len(fin) != 1:
+        return False
+    st = {k: v for k, v in fin[0].items() if k[0] == "deref"}
+    for root, v in st.items():
+        if strip(root) == ("field", ("param", 2), 1) and v == ("cast", "IntToInt", ("field", ("param", 2), 0), "u8"):
+            return len(st) == 1
+    return False
+
+
 def ksa_loops(ctx, rep, se):
     """the KSA written with two `for` loops instead of for_each closures"""
     from rules import algos
@@ -699,7 +849,12 @@ def ksa_loops(ctx, rep, se):
         return
     init_ok = p1 is not None and p1[0] < p2[0] and cfg.must_pass_block(body, p1[0], p2[0])
     how = "first pass: S[n] = n for n = 0..256"
-    if p1 is None:
+    fes = [i for i in se.term_info.values() if i.get("k") == "call" and i["name"] == "std::iter::Iterator::for_each"]
+    if p1 is None and len(fes) == 1:
+        # the identity pass as a for_each closure, the mixing pass as a loop
+        init_ok = _closure_identity_init(ctx, se, fes[0], table_loc) and cfg.must_pass_block(body, fes[0]["site"][1], p2[0])
+        how = "first pass: S[n] = n over iter_mut().enumerate()"
+    elif p1 is None:
         ni = new_initial_state(ctx)
         init_ok = ni is not None and ni[0] is not None and in_self and identity_table(ni[0])
         how = "Rc4::new hands in the identity table [0, 1, .. 255]"
@@ -727,7 +882,17 @@ def ksa_loops(ctx, rep, se):
     else:
         rng_ok = a[0] == "agg" and a[2] == "std::ops::Range" and a[4][0][:2] == ("int", 0) and is_256(a[4][1])
     cyc_ok = util.is_call(b, "std::iter::Iterator::cycle") and util.is_call(strip(b[2][0]), "core::slice::<impl [T]>::iter") and strip(strip(b[2][0])[2][0]) == ("param", key_param)
-    rep.check(rng_ok and cyc_ok, "ksa", fn, "index-and-key-schedule", "i = 0..256 in order zipped with key bytes cycled (key[i mod len])", "mixing pass does not iterate (0..256) zipped with the cycled key", body.loc())
+    def only_exit(lp_):
+        """the loop is left only when its iterator is exhausted (no break / return inside)"""
+        loop_ = set()
+        for e_ in cfg.back_edges(body):
+            if e_[1] == lp_["next_bb"]:
+                loop_ |= cfg.natural_loop(body, e_)
+        ex_ = {(b_, s_) for b_ in loop_ for s_ in body.succs(b_) if s_ not in loop_ and body.blocks[s_]["term"]["k"] != "unreachable"}
+        return ex_ == {(lp_["switch_bb"], lp_["exit_bb"])}
+
+    all_rounds = only_exit(lp) and (p1 is None or only_exit(p1[3]))
+    rep.check(rng_ok and cyc_ok and all_rounds, "ksa", fn, "index-and-key-schedule", "i = 0..256 in order zipped with key bytes cycled (key[i mod len]), every round", "mixing pass does not iterate (0..256) zipped with the cycled key" if all_rounds else "a KSA pass can be left before its last round (break / return inside the loop)", body.loc())
     st = algos.loop_state(se, head)
     j = None
     selfst = None
